@@ -44,7 +44,14 @@ type replMsg struct {
 func newModeBSim(prof *Profile) *Sim {
 	env := newEnv()
 	_ = env
-	s := newSimWith(prof, func(n *Node) { n.modeB = installModeB(n) })
+	var sp *Sim
+	s := newSimWith(prof, func(n *Node) {
+		n.modeB = installModeB(n)
+		if sp != nil {
+			sp.ModeB = n.modeB // a restarted node gets new wrappers: the plan in use is theirs
+		}
+	})
+	sp = s
 	s.ModeB = s.N.modeB
 	return s
 }
@@ -639,6 +646,13 @@ func specialC06(prof *Profile, seed uint64) *RunResult {
 		for i := 0; i < 10; i++ {
 			scs = append(scs, drawC06Scenario(s, r))
 		}
+		// some programs once more, byte for byte, with another amount: each delivery starts from its own amount
+		for k := 0; k < 3; k++ {
+			c := *scs[r.Intn(10)]
+			c.Amount = fmt.Sprintf("%d", 1000+r.Intn(5_000_000))
+			c.Desc += " (same memo again, another amount)"
+			scs = append(scs, &c)
+		}
 		res.Extra = scs
 		for _, sc := range scs {
 			s.runC06Scenario(sc)
@@ -828,39 +842,70 @@ func (s *Sim) runC06Scenario(sc *Scenario) {
 		return
 	}
 	// fee sends (through the interposed bank) in order, in the denomination current at that point
-	var gotSends []string
-	var reqs []CallRec
-	for _, c := range ex.Calls {
-		switch c.Site {
-		case "bank.SendCoins":
-			str, _ := c.Req.(string)
-			if strings.HasPrefix(str, orb+"->") && !strings.HasPrefix(str, orb+"->"+e.Dust.String()) {
-				gotSends = append(gotSends, strings.TrimPrefix(str, orb+"->"))
+	conform := func(ex *bExec) (fp, detail string) {
+		var gotSends []string
+		var reqs []CallRec
+		for _, c := range ex.Calls {
+			switch c.Site {
+			case "bank.SendCoins":
+				str, _ := c.Req.(string)
+				if strings.HasPrefix(str, orb+"->") && !strings.HasPrefix(str, orb+"->"+e.Dust.String()) {
+					gotSends = append(gotSends, strings.TrimPrefix(str, orb+"->"))
+				}
+			case "cctp.DepositForBurn", "cctp.DepositForBurnWithCaller", "hyperlane.RemoteTransfer", "internal.Send":
+				reqs = append(reqs, c)
 			}
-		case "cctp.DepositForBurn", "cctp.DepositForBurnWithCaller", "hyperlane.RemoteTransfer", "internal.Send":
-			reqs = append(reqs, c)
+		}
+		if !sameStrs(gotSends, wantSends) {
+			return "per-action-credits-differ", fmt.Sprintf("fee sends %v, expected %v", gotSends, wantSends)
+		}
+		if len(reqs) != 1 {
+			return "request-count", fmt.Sprintf("%d bridge requests", len(reqs))
+		}
+		var gotCoin string
+		switch m := reqs[0].Req.(type) {
+		case cctptypes.MsgDepositForBurn:
+			gotCoin = m.Amount.String() + m.BurnToken
+		case cctptypes.MsgDepositForBurnWithCaller:
+			gotCoin = m.Amount.String() + m.BurnToken
+		case warptypes.MsgRemoteTransfer:
+			gotCoin = m.Amount.String() + fDenom // the denomination is implied by the token; checked through the ledger below
+		case banktypes.MsgSend:
+			gotCoin = m.Amount.String()
+		}
+		if gotCoin != fAmt.String()+fDenom {
+			return "forwarded-coin-differs", fmt.Sprintf("forwarded %s, the last action left %s%s", gotCoin, fAmt, fDenom)
+		}
+		return "", ""
+	}
+	if fp, detail := conform(ex); fp != "" {
+		rule := "order-on-running-amount"
+		if fp != "per-action-credits-differ" {
+			rule = "final-coin-forwarded"
+		}
+		bad("C06", rule, fp, "%s", detail)
+		if fp == "request-count" {
+			return
 		}
 	}
-	if !sameStrs(gotSends, wantSends) {
-		bad("C06", "order-on-running-amount", "per-action-credits-differ", "fee sends %v, expected %v", gotSends, wantSends)
-	}
-	if len(reqs) != 1 {
-		bad("C06", "final-coin-forwarded", "request-count", "%d bridge requests", len(reqs))
-		return
-	}
-	var gotCoin string
-	switch m := reqs[0].Req.(type) {
-	case cctptypes.MsgDepositForBurn:
-		gotCoin = m.Amount.String() + m.BurnToken
-	case cctptypes.MsgDepositForBurnWithCaller:
-		gotCoin = m.Amount.String() + m.BurnToken
-	case warptypes.MsgRemoteTransfer:
-		gotCoin = m.Amount.String() + fDenom // the denomination is implied by the token; checked through the ledger below
-	case banktypes.MsgSend:
-		gotCoin = m.Amount.String()
-	}
-	if gotCoin != fAmt.String()+fDenom {
-		bad("C06", "final-coin-forwarded", "forwarded-coin-differs", "forwarded %s, the last action left %s%s", gotCoin, fAmt, fDenom)
+	// the same program while one downstream call of the delivery fails or panics: whatever is acknowledged as a
+	// success must still be the complete fold - an action is never silently skipped
+	if n := len(ex.Calls); n > 0 {
+		fr := NewRng(uint64(len(sc.Memo))*1000003 + uint64(A.Uint64()))
+		for k := 0; k < 3; k++ {
+			idx, mode := fr.Intn(n), []int{faultBefore, faultPanic, faultPanic}[fr.Intn(3)]
+			if ex.Calls[idx].Site == "bank.GetBalance" {
+				continue
+			}
+			fx := s.execScenario(sc, map[int]int{idx: mode})
+			s.Stats.Count("rule:C06.order-under-fault")
+			s.Stats.Fault(map[int]string{faultBefore: "injected_error:", faultPanic: "injected_panic:"}[mode] + ex.Calls[idx].Site)
+			if fx.V.Panic != "" || !fx.V.Success || len(fx.Fired) == 0 {
+				continue // aborted transaction or error acknowledgement: nothing is kept
+			}
+			// the failed call itself is recorded although it did not happen: a success after it is already wrong
+			bad("C06", "order-on-running-amount", "success-although-a-step-failed site="+ex.Calls[idx].Site+" mode="+map[int]string{faultBefore: "error", faultPanic: "panic"}[mode], "call #%d (%s) of the delivery failed, the acknowledgement is a success and the calls were %v", idx, ex.Calls[idx].Site, siteList(fx.Calls))
+		}
 	}
 	// statistics: one entry when the denomination is unchanged, two otherwise (C12)
 	s.Stats.Count("rule:C12.two-entries")
